@@ -89,7 +89,12 @@ class Flavour:
         if r is not None and self._data[r] is obj:
             return r
         # plain strings / ints may be rebuilt (e.g. by load()): fall back to equality for immutables
-        if isinstance(obj, (str, int, tuple)) and not isinstance(obj, bool):
+        if isinstance(obj, (str, int, tuple, Item)) and not isinstance(obj, bool):
+            for d in range(1, 15):  # make sure the whole alphabet exists
+                try:
+                    self.data(d)
+                except IndexError:
+                    break
             for d, o in self._data.items():
                 if type(o) is type(obj) and o == obj:
                     return d
@@ -143,6 +148,33 @@ class WordFlavour(Flavour):
 
     def _make(self, d):
         return WORDS[d - 1]
+
+
+UNAMES = ["\u00e4", "\u65e5\u672c", "\u00df\u00df", "\U0001f642", "\u00e9a", "z\u0301", "\u4e2d", "\u00f1"]
+
+
+class UnicodeFlavour(Flavour):
+    is_str = True
+    name_sorted = False
+
+    def _make(self, d):
+        return UNAMES[d - 1]
+
+
+DOC_NAMES = ["A", "a1", "a11", "a12", "a2", "B", "b1", "b11",
+             "dept:Development", "person:Alice", "person:Bob", "person:Charleen", "dept:Marketing", "person:Dave"]
+
+
+class DocFlavour(Flavour):
+    """the strings of the user guide's serialisation examples"""
+    is_str = True
+    name_sorted = False
+
+    def _make(self, d):
+        return DOC_NAMES[d - 1]
+
+    def model_did(self, real, maxd=14):
+        return super().model_did(real, maxd)
 
 
 class IntFlavour(Flavour):
@@ -225,6 +257,8 @@ def make(name, typed=False) -> Flavour:
         "str": StrFlavour,
         "int": IntFlavour,
         "words": WordFlavour,
+        "ustr": UnicodeFlavour,
+        "doc": DocFlavour,
         "falsy": FalsyFlavour,
         "tuple": TupleFlavour,
         "dataclass": DataclassFlavour,
